@@ -63,6 +63,16 @@ def Env.find (env : Env) (name : String) : Option Root :=
 def Env.resolve (env : Env) (protoName : Bytes) : Option String :=
   (env.res.find? fun d => d.1 == protoName).map (·.2)
 
+/-- the members of the oneof behind an exposed-oneof property (empty path: the oneof is a view of
+the same message); `[]` for every other property -/
+def exposedOps (env : Env) (p : PropDef) : List PropDef :=
+  match p.path, p.field with
+  | [], .oneof ref =>
+    match env.find ref with
+    | some (.oneof ops) => ops
+    | _ => []
+  | _, _ => []
+
 /-- `propSet.asMap[name]` (`GetProperty`): properties are registered in order into a Go map, so
 for a duplicated JSON name the **last** one wins. -/
 def findProp (props : List PropDef) (name : Bytes) : Option PropDef :=
